@@ -342,7 +342,11 @@ func genCovMat(g *vlib.G) {
 		sh := sh
 		sequences(sh.r*sh.c, sh.k, func(idx []int) {
 			id := append([]int(nil), idx...)
-			for wi, ws := range matWeights(sh.r) {
+			wsets := matWeights(sh.r)
+			if sh.r*sh.c >= 9 && !g.Thorough() {
+				wsets = []wspec{wsets[0], wsets[2], wsets[5], wsets[8]} // nil, ramp, one zero, non-dyadic
+			}
+			for wi, ws := range wsets {
 				ws := ws
 				reuse := (wi+id[0])%2 == 1
 				gcase(g, fmt.Sprintf("%dx%d x=%s w=%s", sh.r, sh.c, digits(id), ws.name), func(t *vlib.T) {
